@@ -1,10 +1,17 @@
 //! verif-harness: drives the real ebml-iterable code (path dependency on /repo, feature
 //! verif-hooks) and records ndjson traces that TLC validates against the TLA+ specification.
 //! The harness never decides a verdict.
+mod alloc;
 mod codec;
+mod drv_reader;
 mod dynspec;
+mod gen;
 mod j;
+mod reader;
 mod rng;
+
+#[global_allocator]
+static GLOBAL: alloc::Counting = alloc::Counting;
 
 fn arg(args: &[String], name: &str) -> Option<String> {
     args.iter().position(|a| a == name).and_then(|i| args.get(i + 1)).cloned()
@@ -22,6 +29,7 @@ fn main() {
     let mut out = j::Out::create(&outp);
     match driver {
         "codec" => codec::run(&mut out, seed, thorough),
+        d if d.starts_with("reader:") => drv_reader::run(&mut out, &d[7..], seed, thorough),
         x => { eprintln!("unknown driver {x}"); std::process::exit(2); }
     }
     out.flush();
